@@ -375,6 +375,12 @@ package cli
 //@   ensures tables: c.commands[n0].optionsIdx != nil && c.commands[n0].argsIdx != nil && len(c.commands[n0].options) == 0 &&
 //@       len(c.commands[n0].args) == 0 && len(c.commands[n0].commands) == 0
 
+// ActionCommand (C05): the initialiser it returns installs exactly the given action and touches nothing else of the command
+//@ func ActionCommand$1
+//@   requires recv: cmd != nil
+//@   ensures installs: cmd.Action == action
+//@   ensures only-that: cmd.Before == old(cmd.Before) && cmd.After == old(cmd.After) && cmd.Spec == old(cmd.Spec) && cmd.init == old(cmd.init)
+
 // --- the application entry points (C14 version flag, C08 spec errors surface before any flow step) ----------------------------
 // Version (C18, C16, C14): the version flag is an ordinary bool option declared through Cmd.Bool at the call, so it is
 // subject to the duplicate-name check and is counted when the default spec is built
